@@ -141,11 +141,32 @@ macro_rules! vblock {
     };
 }
 /// Reachability witness (vacuity guard); a no-op in the native replay.
+/// `vcover!(cond, "text")`, or `vcover!(if applicable, cond, "text")` when the
+/// goal only makes sense for some harness shapes (`applicable` is concrete;
+/// the goal is then reported UNREACHABLE instead of UNSATISFIABLE).
 macro_rules! vcover {
+    (if $app:expr, $cond:expr, $msg:literal) => {
+        #[cfg(all(kani, not(vp_nocover)))]
+        {
+            if $app {
+                kani::cover!($cond, $msg);
+            }
+        }
+    };
     ($cond:expr, $msg:literal) => {
         #[cfg(all(kani, not(vp_nocover)))]
         {
             kani::cover!($cond, $msg);
+        }
+    };
+}
+/// Mandatory witness that the end of the harness is reachable (the runner
+/// requires it to be SATISFIED in every harness).
+macro_rules! vend {
+    () => {
+        #[cfg(kani)]
+        {
+            kani::cover!(true, "END-OF-HARNESS reached");
         }
     };
 }
@@ -776,10 +797,34 @@ pub fn check_drops(n: usize, extra: &[u8]) {
     });
 }
 
+/// Declares the proof harnesses of a module: `name [unwind] => call; //@ registry`
+/// (the `//@` annotation is read by /verif/lib/runner.py: q= properties that run
+/// the harness in the quick tier, t= additionally in the thorough tier, to= timeout).
+macro_rules! harnesses {
+    ($( $name:ident [$u:literal] => $body:expr; )*) => {
+        $(
+            #[cfg(kani)]
+            #[kani::proof]
+            #[kani::unwind($u)]
+            fn $name() { $body }
+        )*
+        #[cfg(not(kani))]
+        pub fn dispatch(h: &str) -> bool {
+            match h {
+                $( stringify!($name) => { $body; true } )*
+                _ => false
+            }
+        }
+    };
+}
+
 pub mod ops;
+pub mod iters;
+pub mod capacity;
+pub mod memsize;
 
 #[cfg(not(kani))]
 pub fn replay(harness: &str, vals: Vec<Vec<u8>>) -> bool {
     sym::load(vals);
-    ops::dispatch(harness)
+    ops::dispatch(harness) || iters::dispatch(harness) || capacity::dispatch(harness) || memsize::dispatch(harness)
 }
